@@ -93,6 +93,23 @@ CHECKS.update({
         design_ref="5/C08", note=SUB_NOTE + " Update rates are modelled as burst sizes against a closed gate. With sub-second send timeouts a non-stalled subscriber ending with an error is not a verdict (scheduling noise).",
         technique="TLA+ trace validation (SubscribeTrace.tla stall/backlog/conservation rules) with gate-controlled stalls on the real server; Subscribe.tla/CoalesceChan.tla model-checked"),
 })
+CHECKS["C10"] = dict(category="model_checking",
+    text="Concurrent histories of the real ctree.Tree (2-16 goroutines, Add/Get/Query/Walk/Delete/UpdateLeaf on overlapping paths, delay in the reader->writer lock exchange) are validated against "
+         "CTreeLin.tla: TLC infers the linearization points (per-path atomicity, program and real-time order), Query/Walk are checked as interval operations, the final content must equal the "
+         "specification's tree (= that of a sequential order); an operation outstanding for 10 s is a hang. The same driver runs under the Go race detector, every report is a violation unless listed "
+         "as a known finding. The sequential meaning (CTree.tla) is model-checked exhaustively.",
+    design_ref="5/C10",
+    note="Schedules are sampled, not enumerated; histories whose inference exceeds the budget are counted as undecided (never a verdict). The lock-level model CTreeLocks.tla of the design is not "
+         "built yet: the locking protocol is bound to the code through the race detector and the watchdog only.",
+    technique="linearizability-style trace validation with TLC (CTreeLin.tla over CTree.tla) + Go race detector as run-time monitor")
+CHECKS["C16"] = dict(category="model_checking",
+    text="Connection.tla (implementation-shaped, one action per lock section) is model-checked exhaustively for 3 callers x 2 addresses x 3 entries with any dial outcome (AtMostOneDial, NoUseAfterClose, "
+         "ClosedAtLastRelease, FailedForgotten, NeverJoinClosed) and two mutant configurations must yield counterexamples; the real connection.Manager is driven by 2-8 goroutines with scripted dial outcomes, "
+         "double releases and cancellations, and TLC validates the recorded events against ConnectionTrace.tla (one dial in flight per address, shared outcome, never shut down while held, shut down at the last "
+         "release, everything shut down at the end). A panic inside package connection during these scenarios is a violation.",
+    design_ref="5/C16",
+    note="Closure is observed through grpc.ClientConn.GetState()==Shutdown on real lazy connections; a double Close is not observable. Schedules are sampled with delays at the conn.wait/dial.failed hooks.",
+    technique="TLA+ model (Connection.tla + mutants) exhaustive TLC; trace validation of real connection.Manager executions (ConnectionTrace.tla)")
 
 NOT_YET = {
 }
